@@ -65,9 +65,10 @@ def single_item_script(g):
             ops.append(dict(op="update", key=key, expr=e, names=nm, values=vs, **base))
         elif k < 0.7:
             ops.append(dict(op="delete", key=pick(), return_old=r.random() < 0.7, **base))
-            if r.random() < 0.2:
+            r2 = gen.side_rng(ops[-1])
+            if r2.random() < 0.2:
                 # a ReturnValues that asks for nothing DeleteItem / PutItem can give: the write happens, nothing is returned
-                ops[-1].pop("return_old"); ops[-1]["rv"] = r.choice(["NONE", "ALL_NEW", "UPDATED_OLD", "UPDATED_NEW"])
+                ops[-1].pop("return_old"); ops[-1]["rv"] = r2.choice(["NONE", "ALL_NEW", "UPDATED_OLD", "UPDATED_NEW"])
         else: ops.append(dict(op="get", key=pick(exact=r.random() < 0.95), **base))
         if r.random() < 0.35:
             ops.append(dict(op="scan", **base))
@@ -201,6 +202,14 @@ def query_script(g):
         if rd.get("values") and r.random() < 0.2:
             ops += shadow_items(g, t, rd)
         ops.append(rd)
+    kattrs = [t["schema"]["hash"][0]] + ([t["schema"]["range"][0]] if t["schema"]["range"] else [])
+    own = [ix for ix in t["indexes"] if ix["hash"] in kattrs]
+    if own:
+        # an index keyed on the table's own key attributes: an item created by UpdateItem is in it from its first moment
+        k_ = g.key_of(t["schema"])
+        ops.append(dict(op="update", client="c", table=t["name"], key=k_, expr="SET s = :v", names={}, values={":v": S("upserted")}))
+        for ix in own:
+            ops.append(dict(op="scan", client="c", table=t["name"], index=ix["name"]))
     return ops
 
 
@@ -422,12 +431,17 @@ def page_script(g):
             # an attempt to re-type a key attribute of the table (the AddIndex helper declares strings): refused, and the
             # LastEvaluatedKeys of the table keep being accepted as start keys
             ops.append(dict(op="add_index", client="c", table="tbl", index="byk", hash="g", range=kattr[0]))
-        if t["indexes"] and r.random() < 0.35:
+        r2 = gen.side_rng(ops)
+        if t["indexes"] and r2.random() < 0.35:
             # refused updates that would give an index key attribute the wrong type: the items stay where they were in
             # the index, and the keys the pages end on keep being accepted
-            ia = r.choice(t["indexes"])["hash"]
-            for _ in range(r.randrange(1, 4)):
-                ops.append(dict(op="update", client="c", table="tbl", key=g.key_of(t["schema"], exact=True), expr="SET %s = :n" % ia,
+            ia = r2.choice(t["indexes"])["hash"]
+            stored = [o["item"] for o in ops if o["op"] == "put"] or [g2 for g2 in []]
+            kattrs0 = [t["schema"]["hash"][0]] + ([t["schema"]["range"][0]] if t["schema"]["range"] else [])
+            for _ in range(r2.randrange(1, 4)):
+                if not stored: break
+                it0 = r2.choice(stored)
+                ops.append(dict(op="update", client="c", table="tbl", key={a: it0[a] for a in kattrs0 if a in it0}, expr="SET %s = :n" % ia,
                                 names={}, values={":n": N("5")}))
     base = dict(client="c", table="tbl")
     for _ in range(r.randrange(2, 5)):
@@ -1008,7 +1022,8 @@ def native_script(g):
             # an updater is arbitrary code: some set an attribute, some also delete one (what is stored, answered and
             # indexed is the item as the updater left it)
             st = {"u": S("n%d" % nid)}
-            if r.random() < 0.4: st["@drop"] = S(r.choice(["g", "x", "u"]))
+            r2 = gen.side_rng(ops)
+            if r2.random() < 0.4: st["@drop"] = S(r2.choice(["g", "x", "u"]))
             ops.append(dict(op="add_updater", client="c", table=tname, expr=r.choice(texts), id=nid, set=st))
     # reads of a table that is still empty: nothing is evaluated, only the check of the expressions can speak
     vals_for = lambda e: {k: S(k[1:]) for k in [":y", ":x", ":v", ":h"] if k in e}
@@ -1036,10 +1051,11 @@ def native_script(g):
         else:
             if r.random() < 0.5: ops.append(dict(op="set_interpreter", client="c"))
             else: ops.append(dict(op="activate_native", client="c"))
-        if r.random() < 0.12:
+        r2 = gen.side_rng(ops)
+        if r2.random() < 0.12:
             # the table is emptied: its registrations, and the interpreter it is on, stay
             ops.append(dict(op="clear_table", **base))
-            ops.append(dict(op="put", item={"h": S(r.choice("ab")), "g": S("v"), "x": S("y")}, **base))
+            ops.append(dict(op="put", item={"h": S(r2.choice("ab")), "g": S("v"), "x": S("y")}, **base))
         if r.random() < 0.3: ops.append(dict(op="get", key={"h": S(r.choice("ab"))}, **base))
         if r.random() < 0.2:
             # a registration that arrives late, for a text that has been used before (and fell back): it counts from now on,
@@ -1121,15 +1137,15 @@ def restrictions_script(g):
             ops.append(r.choice([dict(op="scan", filter=e, names={}, values=vals, **base),
                                  dict(op="delete", key={"h": S("zz"), "r": S("9")}, cond=e, names={}, values=vals, **base)]))
             continue
-        if r.random() < 0.06:
+        if gen.side_rng(ops).random() < 0.06:
             # one string in both roles, in either order: a "#k" that was a well-formed name is still no value placeholder,
             # and a ":k" refused as a name is still a fine value placeholder afterwards
-            kk = r.choice(["#k", "#role", ":k", ":role"])
+            r2 = gen.side_rng(ops); kk = r2.choice(["#k", "#role", ":k", ":role"])
             as_name = dict(op="scan", filter="%s = :v" % kk, names={kk: "g"}, values={":v": S("x")}, **base)
             as_value = dict(op="scan", filter="g = %s" % kk, names={}, values={kk: S("x")}, **base)
             both = dict(op="scan", filter="#n = :v", names={"#n": "g"}, values={":v": S("x"), kk: S("x")} if kk[0] == "#" else {":v": S("x")}, **base)
             if kk[0] == ":": both["names"][kk] = "f"
-            seq = r.choice([[as_name, as_value, as_name], [as_value, as_name, as_value], [as_name, both], [as_value, both, as_name]])
+            seq = r2.choice([[as_name, as_value, as_name], [as_value, as_name, as_value], [as_name, both], [as_value, both, as_name]])
             ops += [json.loads(json.dumps(o)) for o in seq]
             continue
         if r.random() < 0.08:
